@@ -46,6 +46,14 @@ def run_simplex(ctx, props):
     if len(soft) > max(20, len(lines) // 12):
         ctx.broken.append("two-phase start tableau differs from the model on %d of %d models (expected: a handful, caused by f64 noise in phase-1 ties)" % (len(soft), len(lines)))
     mine = [f for f in rep["oracle_failures"] if f.get("prop") in props]
+    # finding F59: the tableau compares with an absolute tolerance of 1e-5; a model that contains a non-zero magnitude below it
+    # (a cost of 5e-6, a right-hand side of 9e-6) is outside what those comparisons can tell apart
+    import re as _re
+    for f in mine:
+        if f.get("class") == "unclassified" and f.get("kind") in ("step-invariant-broken", "stopped-at-non-optimal-point"):
+            mags = [abs(float(x)) for x in _re.findall(r"(?<![A-Za-z_$])\d+\.?\d*(?:e-?\d+)?", f.get("input", ""))]
+            if any(0.0 < v < 1e-5 for v in mags):
+                f["class"] = "magnitude-below-tableau-tolerance-1e-5"
     new = C.triage_failures(ctx, mine, describe)
     cnt = rep["counters"]
     cov = {
